@@ -1,6 +1,7 @@
 (* Properties/C13.v — valid messages with unknown header fields, flags or types are tolerated.
-   The full statement is REFUTED on this tree in each of its three parts; what remains is PROVED.
-   Model: C11/Model.v + C13/Model.v (reader loop); reference reader of the specification: C11/Spec.v. *)
+   Unknown header field codes (fix 9e1c6e56) and unknown flag bits (fix 0d33c3d1): PROVED for every message and every
+   stream the reference reader of the specification accepts.  Unknown message types: still REFUTED (the reader stops),
+   with the partial statement that remains.  Model: C11/Model.v + C13/Model.v; reference reader: C11/Spec.v. *)
 From ZV Require Import Base.Bytes Base.Res Base.Sig C10.Model C11.Model C11.Spec C11.Proofs C13.Model C13.Spec C13.Proofs.
 Open Scope N_scope.
 
@@ -12,25 +13,41 @@ Definition C13_full : Prop :=
 Theorem C13_full_is_the_statement : C13_full <-> C13_full_statement.
 Proof. reflexivity. Qed.
 
-(* a method call that is valid except for header field code 10 (value: a u32): rejected, and the stream stops there *)
-Theorem C13_unknown_field_refuted :
-  exists b sm e, spec_parse b = Some sm /\ sm_unknown_fields sm = 1 /\ sm_type sm = 1 /\ sm_raw_flags sm = 0
-                 /\ from_raw_parts LE b = Err e
-                 /\ read_stream (n1 ++ b ++ n3) = [IMsg 1; IErrMsg; IEnd]
-                 /\ spec_stream 400 (n1 ++ b ++ n3) = Some [IMsg 1; IMsg 2; IMsg 3; IErrIo; IEnd].
-Proof. exact unknown_field_refuted. Qed.
-Print Assumptions C13_unknown_field_refuted.
+(* Part 1 of the full statement holds.  [spec_parse] accepts a message with any number of header fields of unknown code
+   (0 excepted) carrying any valid value of any variant-free, descriptor-free type, and any flag bits; the code accepts
+   it too and reports the same header ([sm_view]: unknown fields absent, flags = the known bits) and body. *)
+Theorem C13_message_tolerant : forall b sm, spec_parse b = Some sm -> 1 <= sm_type sm <= 4 ->
+  exists m, from_raw_parts (ph_endian (hv_ph (sm_view sm))) b = Ok m /\ header m = Ok (sm_view sm) /\ body m = Ok (sm_body sm).
+Proof. exact message_tolerant. Qed.
+Print Assumptions C13_message_tolerant.
 
-(* ... except for flag bit 0x08 *)
-Theorem C13_unknown_flag_refuted :
-  exists b sm e, spec_parse b = Some sm /\ sm_raw_flags sm = 8 /\ sm_unknown_fields sm = 0 /\ sm_type sm = 1
-                 /\ from_raw_parts LE b = Err e
-                 /\ read_stream (n1 ++ b ++ n3) = [IMsg 1; IErrMsg; IEnd]
-                 /\ spec_stream 400 (n1 ++ b ++ n3) = Some [IMsg 1; IMsg 2; IMsg 3; IErrIo; IEnd].
-Proof. exact unknown_flag_refuted. Qed.
-Print Assumptions C13_unknown_flag_refuted.
+Theorem C13_unknown_field_ok : forall b sm, spec_parse b = Some sm -> 0 < sm_unknown_fields sm -> 1 <= sm_type sm <= 4 ->
+  exists m, from_raw_parts (ph_endian (hv_ph (sm_view sm))) b = Ok m /\ header m = Ok (sm_view sm) /\ body m = Ok (sm_body sm).
+Proof. exact unknown_field_ok. Qed.
+Print Assumptions C13_unknown_field_ok.
 
-(* ... a message of type 5: not skipped, the reader stops and the following message is never delivered *)
+Theorem C13_unknown_flag_ok : forall b sm, spec_parse b = Some sm -> 8 <= sm_raw_flags sm -> 1 <= sm_type sm <= 4 ->
+  exists m, from_raw_parts (ph_endian (hv_ph (sm_view sm))) b = Ok m /\ header m = Ok (sm_view sm) /\ body m = Ok (sm_body sm)
+            /\ ph_flags (hv_ph (sm_view sm)) = sm_raw_flags sm mod 8.
+Proof. exact unknown_flag_ok. Qed.
+Print Assumptions C13_unknown_flag_ok.
+
+(* Part 2 holds for every stream whose messages all have a known type, whatever unknown fields and flag bits they carry:
+   each message is framed, accepted and delivered in order, and the stream goes on to its end. *)
+Theorem C13_stream_tolerant : forall stream l, spec_stream (S (length stream)) stream = Some l ->
+  stream_types_known (S (length stream)) stream = true -> read_stream stream = l.
+Proof. exact stream_tolerant. Qed.
+Print Assumptions C13_stream_tolerant.
+
+(* non-vacuity / regression: the former witnesses of the two repaired classes *)
+Example C13_former_witnesses :
+  (exists sm, spec_parse odd_field = Some sm /\ sm_unknown_fields sm = 1) /\
+  (exists sm, spec_parse odd_flag = Some sm /\ sm_raw_flags sm = 8) /\
+  read_stream (n1 ++ odd_field ++ n3) = [IMsg 1; IMsg 2; IMsg 3; IErrIo; IEnd] /\
+  read_stream (n1 ++ odd_flag ++ n3) = [IMsg 1; IMsg 2; IMsg 3; IErrIo; IEnd].
+Proof. exact former_witnesses_tolerated. Qed.
+
+(* a message of type 5: not skipped, the reader stops and the following message is never delivered *)
 Theorem C13_unknown_type_refuted :
   exists b sm, spec_parse b = Some sm /\ sm_type sm = 5 /\ sm_raw_flags sm = 0 /\ sm_unknown_fields sm = 0
                /\ read_stream (n1 ++ b ++ n3) = [IMsg 1; IErrMsg; IEnd]
@@ -42,8 +59,8 @@ Theorem C13_full_refuted : ~ C13_full_statement.
 Proof. exact full_refuted. Qed.
 Print Assumptions C13_full_refuted.
 
-(* what remains: any number of messages the library can build (field codes 1..9, flags <= 7, types 1..4; any field
-   subset, both byte orders, any body) are framed, accepted and delivered in order up to the end of the stream *)
+(* what remains around unknown types (= C13_stream_tolerant restricted to what the library itself builds): any number of
+   built messages are framed, accepted and delivered in order up to the end of the stream *)
 Theorem C13_known_stream_partial : forall msgs : list built, Forall built_ok msgs ->
   read_stream (concat (map built_bytes msgs)) = map (fun x => IMsg (h_serial (bm_hdr x))) msgs ++ [IErrIo; IEnd].
 Proof. exact known_stream. Qed.
@@ -55,6 +72,5 @@ Theorem C13_known_message_partial : forall x : built, built_ok x ->
 Proof. exact known_message. Qed.
 Print Assumptions C13_known_message_partial.
 
-(* non-vacuity *)
 Example C13_example : Forall built_ok [ex1; ex2] /\ built_bytes ex1 = n1.
 Proof. split; [exact ex_built_ok|exact ex1_is_n1]. Qed.
